@@ -277,6 +277,182 @@ static int run_c08(uint64_t seed, long from, long to, int nbase, bool count_only
     return 0;
 }
 
+
+// ---------------------------------------------------------------------------------------------------------------- ids (C09, C10 helper)
+// read every file of a list and print what is delivered: "@ids <i> <type>:<id>:<crc32 of re-encoding> ..." (id = CanMessage.id / AppText.source)
+#include <zlib.h>
+static int run_ids(long from, long to, const char * listfile) {
+    std::vector<std::string> files; { std::ifstream l(listfile); std::string s; while (std::getline(l, s)) if (!s.empty()) files.push_back(s); }
+    long n = 0, objs = 0;
+    for (long i = from; i < to && i < (long)files.size(); i++) {
+        hc::begin_case(std::to_string(i));
+        wd::arm(30, "ids-session"); wd::note(files[i].c_str());
+        std::ostringstream line; line << "@ids " << i;
+        try {
+            File f; f.open(files[i].c_str(), std::ios_base::in);
+            if (!f.is_open()) line << " !notopen";
+            else {
+                long k = 0;
+                while (ObjectHeaderBase * o = f.read()) {
+                    uint32_t id = 0;
+                    if (CanMessage * m = dynamic_cast<CanMessage *>(o)) id = m->id; else if (AppText * t = dynamic_cast<AppText *>(o)) id = t->source;
+                    MemFile mf; o->write(mf);
+                    line << " " << (unsigned)o->objectType << ":" << id << ":" << crc32(0, mf.buf.data(), (uInt)mf.buf.size());
+                    delete o; objs++;
+                    if (++k > 100000) { line << " !unbounded"; break; }
+                }
+                if (f.good() || !f.eof()) line << " !flags";
+                f.close();
+            }
+        } catch (Vector::BLF::Exception & e) { line << " !exception"; }
+        catch (std::exception & e) { line << " !foreign:" << e.what(); }
+        printf("%s\n", line.str().c_str());
+        n++;
+        wd::disarm();
+    }
+    hc::stat("{\"files\":" + std::to_string(n) + ",\"objects\":" + std::to_string(objs) + "}");
+    return 0;
+}
+
+// ---------------------------------------------------------------------------------------------------------------- C10
+// hostile inputs: enumerated mutations of valid files at file level and at inflated-stream level (re-wrapped by the independent writer)
+struct C10Base {
+    twin::Bytes file; twin::Bytes stream; std::vector<size_t> cpos; std::vector<size_t> cend;   // container start / end (incl. pad) offsets in file
+    std::vector<size_t> opos;                                                                     // object start offsets in stream (by header walk)
+    long n_fbyte, n_f16, n_f32, n_ftrunc, n_fblock, n_sbyte, n_s16, n_s32, n_strunc, n_sblock, n_osize, n_cfield;
+    long total() const { return n_fbyte + n_f16 + n_f32 + n_ftrunc + n_fblock + n_sbyte + n_s16 + n_s32 + n_strunc + n_sblock + n_osize + n_cfield; }
+};
+static const uint8_t BV8[] = {0x00, 0x01, 0x7f, 0x80, 0xff};
+static const uint64_t BVW[] = {0, 1, 0x7fffffffffffffffULL, 0x8000000000000000ULL, 0xffffffffffffffffULL};
+
+static void c10_prepare(C10Base & b) {
+    std::string e = twin::parse(b.file, b.stream);
+    if (!e.empty()) b.stream.clear();
+    size_t pos = 144;
+    while (pos + 32 <= b.file.size() && !memcmp(&b.file[pos], "LOBJ", 4)) {
+        uint32_t osz = twin::get32(&b.file[pos + 8]); if (osz < 32 || pos + osz > b.file.size()) break;
+        b.cpos.push_back(pos); pos += osz + osz % 4; if (pos > b.file.size()) pos = b.file.size(); b.cend.push_back(pos);
+    }
+    size_t p = 0;
+    while (p + 16 <= b.stream.size()) {
+        if (memcmp(&b.stream[p], "LOBJ", 4)) { p++; continue; }
+        uint32_t osz = twin::get32(&b.stream[p + 8]); b.opos.push_back(p); p += std::max<uint32_t>(osz, 16);
+    }
+    size_t n = b.file.size(), m = b.stream.size();
+    b.n_fbyte = 5 * (long)n; b.n_f16 = 7 * (long)(n / 2); b.n_f32 = 7 * (long)(n / 4); b.n_ftrunc = (long)n + 1; b.n_fblock = 3 * (long)b.cpos.size();
+    b.n_sbyte = 2 * 5 * (long)m; b.n_s16 = 7 * (long)(m / 2); b.n_s32 = 2 * 7 * (long)(m / 4); b.n_strunc = 2 * ((long)m + 1); b.n_sblock = 3 * (long)b.opos.size();
+    b.n_osize = 21 * (long)b.opos.size() * 2; b.n_cfield = 2 * 16 * (long)std::max<size_t>(1, b.cpos.size() ? 1 : 0);
+    if (m == 0) b.n_sbyte = b.n_s16 = b.n_s32 = b.n_strunc = b.n_sblock = b.n_osize = b.n_cfield = 0;
+}
+
+static void put_le(twin::Bytes & v, size_t off, uint64_t val, int w) { for (int i = 0; i < w && off + i < v.size(); i++) v[off + i] = (uint8_t)(val >> (8 * i)); }
+static uint64_t get_le(const twin::Bytes & v, size_t off, int w) { uint64_t x = 0; for (int i = 0; i < w && off + i < v.size(); i++) x |= (uint64_t)v[off + i] << (8 * i); return x; }
+static uint64_t field_val(uint64_t old, int k, int w) { uint64_t mask = w >= 8 ? ~0ULL : ((1ULL << (8 * w)) - 1); uint64_t v = k < 5 ? (k == 2 ? (mask >> 1) : k == 3 ? (mask >> 1) + 1 : BVW[k]) : k == 5 ? old - 1 : old + 1; return v & mask; }
+
+// wrap a (mutated) stream again: same container cut as the original file where possible
+static twin::Bytes rewrap(const C10Base & b, const twin::Bytes & s, int level) {
+    size_t cs = 0; if (!b.cpos.empty()) cs = twin::get32(&b.file[b.cpos[0] + 24]);
+    if (cs == 0) cs = s.size() ? s.size() : 1;
+    twin::Bytes out(b.file.begin(), b.file.begin() + 144);
+    for (size_t i = 0; i < s.size(); i += cs) { twin::Bytes c = twin::container(s.data() + i, std::min(cs, s.size() - i), level); out.insert(out.end(), c.begin(), c.end()); }
+    return out;
+}
+
+static twin::Bytes c10_mutant(const C10Base & b, long j, std::string & kind) {
+    twin::Bytes f = b.file; size_t n = f.size();
+    if (j < b.n_fbyte) { kind = "file-byte"; size_t o = (size_t)(j / 5); f[o] = BV8[j % 5]; return f; } j -= b.n_fbyte;
+    if (j < b.n_f16) { kind = "file-field16"; size_t o = 2 * (size_t)(j / 7); put_le(f, o, field_val(get_le(f, o, 2), (int)(j % 7), 2), 2); return f; } j -= b.n_f16;
+    if (j < b.n_f32) { kind = "file-field32"; size_t o = 4 * (size_t)(j / 7); put_le(f, o, field_val(get_le(f, o, 4), (int)(j % 7), 4), 4); return f; } j -= b.n_f32;
+    if (j < b.n_ftrunc) { kind = "file-truncation"; f.resize((size_t)j); return f; } j -= b.n_ftrunc;
+    if (j < b.n_fblock) {
+        kind = "file-container-block"; size_t i = (size_t)(j / 3); int op = (int)(j % 3);
+        twin::Bytes blk(f.begin() + b.cpos[i], f.begin() + b.cend[i]);
+        if (op == 0) f.insert(f.begin() + b.cend[i], blk.begin(), blk.end());
+        else if (op == 1) f.erase(f.begin() + b.cpos[i], f.begin() + b.cend[i]);
+        else if (i + 1 < b.cpos.size()) { twin::Bytes nx(f.begin() + b.cpos[i + 1], f.begin() + b.cend[i + 1]); twin::Bytes g(f.begin(), f.begin() + b.cpos[i]); g.insert(g.end(), nx.begin(), nx.end()); g.insert(g.end(), blk.begin(), blk.end()); g.insert(g.end(), f.begin() + b.cend[i + 1], f.end()); f = g; }
+        return f;
+    } j -= b.n_fblock;
+    twin::Bytes s = b.stream; size_t m = s.size(); (void)n;
+    if (j < b.n_sbyte) { kind = "stream-byte"; int level = (j % 2) ? 6 : 0; j /= 2; s[(size_t)(j / 5)] = BV8[j % 5]; return rewrap(b, s, level); } j -= b.n_sbyte;
+    if (j < b.n_s16) { kind = "stream-field16"; size_t o = 2 * (size_t)(j / 7); put_le(s, o, field_val(get_le(s, o, 2), (int)(j % 7), 2), 2); return rewrap(b, s, 0); } j -= b.n_s16;
+    if (j < b.n_s32) { kind = "stream-field32"; int level = (j % 2) ? 6 : 0; j /= 2; size_t o = 4 * (size_t)(j / 7); put_le(s, o, field_val(get_le(s, o, 4), (int)(j % 7), 4), 4); return rewrap(b, s, level); } j -= b.n_s32;
+    if (j < b.n_strunc) { kind = "stream-truncation"; int level = (j % 2) ? 6 : 0; j /= 2; s.resize((size_t)j); return rewrap(b, s, level); } j -= b.n_strunc;
+    if (j < b.n_sblock) {
+        kind = "stream-object-block"; size_t i = (size_t)(j / 3); int op = (int)(j % 3);
+        size_t a = b.opos[i], e = i + 1 < b.opos.size() ? b.opos[i + 1] : m;
+        twin::Bytes blk(s.begin() + a, s.begin() + e);
+        if (op == 0) s.insert(s.begin() + e, blk.begin(), blk.end());
+        else if (op == 1) s.erase(s.begin() + a, s.begin() + e);
+        else if (i + 1 < b.opos.size()) { size_t e2 = i + 2 < b.opos.size() ? b.opos[i + 2] : m; twin::Bytes nx(s.begin() + e, s.begin() + e2); twin::Bytes g(s.begin(), s.begin() + a); g.insert(g.end(), nx.begin(), nx.end()); g.insert(g.end(), blk.begin(), blk.end()); g.insert(g.end(), s.begin() + e2, s.end()); s = g; }
+        return rewrap(b, s, 0);
+    } j -= b.n_sblock;
+    if (j < b.n_osize) {
+        kind = "stream-objectSize"; int level = (j % 2) ? 6 : 0; j /= 2; size_t i = (size_t)(j / 21); int k = (int)(j % 21);
+        uint32_t old = twin::get32(&s[b.opos[i] + 8]); uint32_t v = k < 17 ? (uint32_t)k : k == 17 ? old - 1 : k == 18 ? old + 1 : k == 19 ? 0x7fffffffu : 0xffffffffu;
+        put_le(s, b.opos[i] + 8, v, 4); return rewrap(b, s, level);
+    } j -= b.n_osize;
+    {   // inconsistent container fields on the first container, method 0 and 2 wrapping
+        kind = "container-field"; int level = (j % 2) ? 6 : 0; j /= 2;
+        twin::Bytes w = rewrap(b, s, level);
+        if (w.size() < 144 + 32) return w;
+        uint32_t osz = twin::get32(&w[144 + 8]), us = twin::get32(&w[144 + 24]);
+        switch (j) {
+        case 0: put_le(w, 144 + 24, 0, 4); break; case 1: put_le(w, 144 + 24, us - 1, 4); break; case 2: put_le(w, 144 + 24, us + 1, 4); break; case 3: put_le(w, 144 + 24, us * 2, 4); break;
+        case 4: put_le(w, 144 + 24, 0x7fffffff, 4); break; case 5: put_le(w, 144 + 24, 0xffffffff, 4); break;
+        case 6: put_le(w, 144 + 8, 0, 4); break; case 7: put_le(w, 144 + 8, 31, 4); break; case 8: put_le(w, 144 + 8, 32, 4); break; case 9: put_le(w, 144 + 8, osz - 1, 4); break;
+        case 10: put_le(w, 144 + 8, osz + 1, 4); break; case 11: put_le(w, 144 + 8, 0xffffffff, 4); break;
+        case 12: put_le(w, 144 + 16, 1, 2); break; case 13: put_le(w, 144 + 16, 3, 2); break; case 14: put_le(w, 144 + 16, level ? 0 : 2, 2); break; default: put_le(w, 144 + 16, 0xffff, 2); break;
+        }
+        return w;
+    }
+}
+
+static int run_c10(uint64_t seed, long from, long to, const char * listfile, long stride, bool count_only) {
+    std::vector<std::string> files; { std::ifstream l(listfile); std::string s; while (std::getline(l, s)) if (!s.empty()) files.push_back(s); }
+    std::vector<C10Base> bases(files.size()); std::vector<long> start; long total = 0;
+    for (size_t i = 0; i < files.size(); i++) { bases[i].file = twin::load(files[i]); c10_prepare(bases[i]); start.push_back(total); total += bases[i].total(); }
+    long ncases = (total + stride - 1) / stride;
+    if (count_only) { printf("%ld %ld\n", ncases, total); return 0; }
+    std::string path = tmp_path("c10");
+    g_new_cap = 256u << 20;
+    long sessions = 0, opened = 0, threw = 0, objects = 0; std::map<std::string, long> kinds; std::string sample;
+    long phase = (long)(Rng::mix(seed, 0xC10) % (uint64_t)stride);
+    for (long c = from; c < to && c < ncases; c++) {
+        hc::begin_case(std::to_string(c));
+        long g = c * stride + phase; if (g >= total) g = total - 1;
+        size_t bi = 0; while (bi + 1 < bases.size() && start[bi + 1] <= g) bi++;
+        long j = g - start[bi];
+        std::string kind; twin::Bytes mut = c10_mutant(bases[bi], j, kind);
+        twin::save(path, mut);
+        std::string ctx = kind + " #" + std::to_string(j) + " of " + files[bi].substr(files[bi].rfind('/') + 1) + " (" + std::to_string(mut.size()) + " bytes) case=" + std::to_string(c);
+        wd::arm(20, ("c10:" + kind).c_str()); wd::note(ctx.c_str());
+        std::string key;
+        long limit = 64 * (long)mut.size() + 4096;
+        try {
+            File f; bool open_ok = false;
+            try { f.open(path.c_str(), std::ios_base::in); open_ok = f.is_open(); } catch (Vector::BLF::Exception &) { threw++; }
+            if (open_ok) {
+                opened++;
+                long k = 0;
+                while (ObjectHeaderBase * o = f.read()) { delete o; objects++; if (++k > limit) { key = "unbounded-object-stream"; break; } }
+                f.close();
+            }
+        } catch (Vector::BLF::Exception & e) { key = "library-exception-escapes-read-or-close"; ctx += std::string(" what=") + e.what(); }
+        catch (std::bad_alloc &) { key = "bad_alloc-escapes"; }
+        catch (std::exception & e) { key = "foreign-exception-escapes"; ctx += std::string(" what=") + e.what(); }
+        if (!key.empty()) hc::viol(key + ":" + kind, ctx);
+        sessions++; kinds[kind]++;
+        if (sample.empty() || c % 4999 == 0) sample = ctx;
+        wd::disarm();
+    }
+    unlink(path.c_str());
+    std::ostringstream o; o << "{\"sessions\":" << sessions << ",\"opened\":" << opened << ",\"open_threw\":" << threw << ",\"objects_delivered\":" << objects << ",\"alloc_cap_hits\":" << g_new_cap_hits << ",\"kinds\":{";
+    bool first = true; for (auto & kv : kinds) { o << (first ? "" : ",") << "\"" << kv.first << "\":" << kv.second; first = false; }
+    o << "},\"samples\":[" << hc::jstr(sample) << "]}";
+    hc::stat(o.str());
+    return 0;
+}
+
 int main(int argc, char ** argv) {
     hc::out_init();
     if (argc < 3) return 2;
@@ -290,6 +466,9 @@ int main(int argc, char ** argv) {
     if (mode == "c01") return run_c01(seed, from, to);
     if (mode == "gen") return run_gen(seed, from, to, argv[5], atol(argv[6]));
     if (mode == "c05r") return run_c05r(from, to, argv[5]);
+    if (mode == "ids") return run_ids(from, to, argv[5]);
+    if (mode == "c10") return run_c10(seed, from, to, argv[5], atol(argv[6]), false);
+    if (mode == "c10count") return run_c10(seed, 0, 0, argv[5], atol(argv[6]), true);
     if (mode == "c08") return run_c08(seed, from, to, atoi(argv[5]), false);
     return 2;
 }
